@@ -62,6 +62,20 @@ def u_b_molecular(ctx):
         ug = DenseGenotypeMatrix(mat=mat.sum(0).astype("int8"), ploidy=2)
         e.prove(tag + ":unphased-projection-agrees", modeb.eq(C.from_gmat(ug).mat, G.mat))
         e.prove(tag + ":canary:all-ones", z3.And(*[R(G.mat[i, i]) == 1 for i in range(n)]), expect="fail", timeout_ms=2000)
+        if n * p <= 2:
+            # the kinship format describes the coancestry values the matrix holds NOW: after an in-place reordering of the taxa and
+            # after new values were written through the array that .mat hands out
+            if n >= 2:
+                G.reorder_taxa(numpy.array(list(range(n))[::-1], dtype="int64"))
+                K1 = G.mat_asformat("kinship")
+                e.prove(tag + ":after-reorder_taxa:kinship==half-coancestry",
+                        z3.And(*[R(K1[i, j]) * 2 == R(G.mat[i, j]) for i in range(n) for j in range(n)]))
+            G.mat[...] = barr.fresh("c2", (n, n), "float64")
+            K2 = G.mat_asformat("kinship")
+            e.prove(tag + ":after-in-place-write:kinship==half-coancestry",
+                    z3.And(*[R(K2[i, j]) * 2 == R(G.mat[i, j]) for i in range(n) for j in range(n)]))
+            e.prove(tag + ":after-in-place-write:coancestry-format-is-the-matrix",
+                    z3.And(*[R(G.mat_asformat("coancestry")[i, j]) == R(G.mat[i, j]) for i in range(n) for j in range(n)]))
         return "ok"
     modeb.run_shapes(ctx, "molecular", [(1, 1), (2, 1), (2, 2)] + ([(3, 2)] if ctx.tier == "thorough" else []), body, timeout_ms=30000)    # (2, 3) stays `unknown`
 
